@@ -9,12 +9,44 @@
 use std::sync::Arc;
 
 use text2num::lang::{Dutch, German, Italian};
-use text2num::{replace_numbers_in_text, text2digits, Language};
+use text2num::{
+    find_numbers, find_numbers_iter, replace_numbers_in_stream, replace_numbers_in_text, text2digits, Language,
+    Replace, Token,
+};
+
+struct W(String);
+impl Token for &W {
+    fn text(&self) -> &str {
+        &self.0
+    }
+    fn text_lowercase(&self) -> &str {
+        &self.0
+    }
+}
+impl Replace for W {
+    fn replace<I: Iterator<Item = Self>>(replaced: I, data: String) -> Self {
+        W(format!("{data}<{}>", replaced.count()))
+    }
+}
+struct S<'a>(&'a str, bool);
+impl Token for S<'_> {
+    fn text(&self) -> &str {
+        self.0
+    }
+    fn text_lowercase(&self) -> &str {
+        self.0
+    }
+    fn nt_separated(&self, _p: &Self) -> bool {
+        self.1
+    }
+}
 
 #[derive(Clone, Copy)]
 enum Call {
     T2d(usize, &'static str),
     Rewrite(usize, &'static str, f64),
+    /// find_numbers / find_numbers_iter (2 requests, then dropped) / replace_numbers_in_stream
+    Stream(usize, &'static str, f64),
 }
 
 const CALLS: &[Call] = &[
@@ -34,6 +66,19 @@ const CALLS: &[Call] = &[
     Call::Rewrite(4, "le vingt neuf et un logement neuf, trente-et-un virgule zéro cinq", 0.0),
     Call::T2d(3, "one hundred fifty-seven"),
     Call::T2d(4, "quatre-vingt-dix-sept"),
+    Call::T2d(5, "dos mil trescientos cuarenta y cinco"),
+    Call::T2d(5, "vigésimo primero"),
+    Call::T2d(6, "mil trezentos e vinte e cinco"),
+    Call::T2d(6, "vigésima quarta"),
+    Call::Rewrite(5, "tengo veinticinco vacas, doce coma cero cinco y un tercio", 10.0),
+    Call::Rewrite(6, "tenho vinte e cinco vacas, doze vírgula zero cinco e a décima sexta", 10.0),
+    Call::Stream(3, "i have two hundred and twenty dollars and one two |three point one four", 10.0),
+    Call::Stream(4, "zéro neuf soixante |zéro six douze vingt et un", 3.0),
+    Call::Stream(5, "uno dos |tres y ochenta y cinco", 0.0),
+    Call::Stream(6, "um dois |três e oitenta e cinco mil", 0.0),
+    Call::Stream(0, "ein und zwanzig |dreiundvierzigste hundert", 0.0),
+    Call::Stream(1, "een en twintig |drieënvijftigste honderd", 0.0),
+    Call::Stream(2, "ventuno |duecentesima mille", 0.0),
 ];
 
 /// Only the interpreters a run needs are built: constructing the splitter automata is by far
@@ -44,6 +89,17 @@ struct Set {
     it: Option<Italian>,
     en: Language,
     fr: Language,
+    es: Language,
+    pt: Language,
+}
+
+fn stream_call<L: text2num::LangInterpreter>(l: &L, t: &str, thr: f64) -> String {
+    let toks: Vec<S> = t.split(' ').map(|w| if let Some(r) = w.strip_prefix('|') { S(r, true) } else { S(w, false) }).collect();
+    let all: Vec<String> = find_numbers(toks.iter().map(|s| S(s.0, s.1)), l, thr).iter().map(|o| format!("{}..{}:{}", o.start, o.end, o.text)).collect();
+    let first2: Vec<String> = find_numbers_iter(toks.iter().map(|s| S(s.0, s.1)), l, thr).take(2).map(|o| o.text).collect();
+    let words: Vec<W> = t.split(' ').map(|w| W(w.trim_start_matches('|').to_string())).collect();
+    let out: Vec<String> = replace_numbers_in_stream(words, l, thr).into_iter().map(|w| w.0).collect();
+    format!("{all:?} {first2:?} {out:?}")
 }
 
 impl Set {
@@ -54,11 +110,13 @@ impl Set {
             it: (which == 2).then(Italian::new),
             en: Language::english(),
             fr: Language::french(),
+            es: Language::spanish(),
+            pt: Language::portuguese(),
         }
     }
     fn has(&self, c: Call) -> bool {
         let l = match c {
-            Call::T2d(l, _) | Call::Rewrite(l, _, _) => l,
+            Call::T2d(l, _) | Call::Rewrite(l, _, _) | Call::Stream(l, _, _) => l,
         };
         match l {
             0 => self.de.is_some(),
@@ -73,12 +131,23 @@ impl Set {
             Call::T2d(1, t) => format!("{:?}", text2digits(t, self.nl.as_ref().unwrap()).map_err(|e| format!("{e:?}"))),
             Call::T2d(2, t) => format!("{:?}", text2digits(t, self.it.as_ref().unwrap()).map_err(|e| format!("{e:?}"))),
             Call::T2d(3, t) => format!("{:?}", text2digits(t, &self.en).map_err(|e| format!("{e:?}"))),
-            Call::T2d(_, t) => format!("{:?}", text2digits(t, &self.fr).map_err(|e| format!("{e:?}"))),
+            Call::T2d(4, t) => format!("{:?}", text2digits(t, &self.fr).map_err(|e| format!("{e:?}"))),
+            Call::T2d(5, t) => format!("{:?}", text2digits(t, &self.es).map_err(|e| format!("{e:?}"))),
+            Call::T2d(_, t) => format!("{:?}", text2digits(t, &self.pt).map_err(|e| format!("{e:?}"))),
+            Call::Stream(0, t, thr) => stream_call(self.de.as_ref().unwrap(), t, thr),
+            Call::Stream(1, t, thr) => stream_call(self.nl.as_ref().unwrap(), t, thr),
+            Call::Stream(2, t, thr) => stream_call(self.it.as_ref().unwrap(), t, thr),
+            Call::Stream(3, t, thr) => stream_call(&self.en, t, thr),
+            Call::Stream(4, t, thr) => stream_call(&self.fr, t, thr),
+            Call::Stream(5, t, thr) => stream_call(&self.es, t, thr),
+            Call::Stream(_, t, thr) => stream_call(&self.pt, t, thr),
             Call::Rewrite(0, t, thr) => replace_numbers_in_text(t, self.de.as_ref().unwrap(), thr),
             Call::Rewrite(1, t, thr) => replace_numbers_in_text(t, self.nl.as_ref().unwrap(), thr),
             Call::Rewrite(2, t, thr) => replace_numbers_in_text(t, self.it.as_ref().unwrap(), thr),
             Call::Rewrite(3, t, thr) => replace_numbers_in_text(t, &self.en, thr),
-            Call::Rewrite(_, t, thr) => replace_numbers_in_text(t, &self.fr, thr),
+            Call::Rewrite(4, t, thr) => replace_numbers_in_text(t, &self.fr, thr),
+            Call::Rewrite(5, t, thr) => replace_numbers_in_text(t, &self.es, thr),
+            Call::Rewrite(_, t, thr) => replace_numbers_in_text(t, &self.pt, thr),
         }
     }
 }
@@ -94,7 +163,12 @@ fn main() {
     // sequentially before any other thread exists (history independence is the business of the
     // simulator's history layer; this layer is about interleavings)
     let shared = Arc::new(Set::new(which));
-    let calls: Vec<Call> = CALLS.iter().copied().filter(|&c| shared.has(c)).collect();
+    // which 0..2: only the calls of that splitter language (keeps the shared splitter busy);
+    // which 3: the four languages without a splitter, all entry points
+    let lang_of = |c: Call| match c {
+        Call::T2d(l, _) | Call::Rewrite(l, _, _) | Call::Stream(l, _, _) => l,
+    };
+    let calls: Vec<Call> = CALLS.iter().copied().filter(|&c| shared.has(c) && (which >= 3 || lang_of(c) == which)).collect();
     let expected: Vec<String> = calls.iter().map(|&c| shared.run(c)).collect();
     let expected = Arc::new(expected);
     let calls = Arc::new(calls);
